@@ -806,6 +806,8 @@ class GraphQLSchema:
 
     def _validate_object_extensions(self) -> List[str]:
         errors = []
+        added_fields = {}
+        added_interfaces = {}
 
         for extension in [
             x
@@ -819,21 +821,33 @@ class GraphQLSchema:
             )
             errors.extend(ext_errors)
             if not ext_errors:
+                already_added = added_fields.setdefault(extended.name, set())
                 for field in extension.fields:
-                    if field in extended.implemented_fields:
+                    if (
+                        field in extended.implemented_fields
+                        or field in already_added
+                    ):
                         errors.append(
                             f"Can't add Field < {field} > to "
                             f"TYPE < {extended.name} > "
                             f"cause field already exists."
                         )
+                    already_added.add(field)
 
+                already_added = added_interfaces.setdefault(
+                    extended.name, set()
+                )
                 for interface in extension.interfaces:
-                    if interface in extended.interfaces_names:
+                    if (
+                        interface in extended.interfaces_names
+                        or interface in already_added
+                    ):
                         errors.append(
                             f"Can't add Interface < {interface} > "
                             f"to TYPE < {extended.name} > "
                             f"cause Interface already exists."
                         )
+                    already_added.add(interface)
 
                 errors.extend(
                     _validate_extension_directives(extension, extended, "TYPE")
@@ -843,6 +857,7 @@ class GraphQLSchema:
 
     def _validate_union_extensions(self) -> List[str]:
         errors = []
+        added_types = {}
 
         for extension in [
             x
@@ -856,13 +871,15 @@ class GraphQLSchema:
             )
             errors.extend(ext_errors)
             if not ext_errors:
+                already_added = added_types.setdefault(extended.name, set())
                 for typ in extension.types:
-                    if typ in extended.types:
+                    if typ in extended.types or typ in already_added:
                         errors.append(
                             f"Can't add PossibleType < {typ} > to "
                             f"UNION < {extended.name} > "
                             f"cause PossibleType already exists."
                         )
+                    already_added.add(typ)
 
                 errors.extend(
                     _validate_extension_directives(
@@ -874,6 +891,7 @@ class GraphQLSchema:
 
     def _validate_input_object_extensions(self) -> List[str]:
         errors = []
+        added_fields = {}
 
         for extension in [
             x
@@ -892,18 +910,24 @@ class GraphQLSchema:
                     )
                 )
 
+                already_added = added_fields.setdefault(extended.name, set())
                 for ifield in extension.input_fields:
-                    if ifield in extended.input_fields:
+                    if (
+                        ifield in extended.input_fields
+                        or ifield in already_added
+                    ):
                         errors.append(
                             f"Can't add Input Field < {ifield} > "
                             f"to Input Object < {extended.name} > "
                             f"cause it already exists"
                         )
+                    already_added.add(ifield)
 
         return errors
 
     def _validate_interface_extensions(self) -> List[str]:
         errors = []
+        added_fields = {}
 
         for extension in [
             x
@@ -917,13 +941,18 @@ class GraphQLSchema:
             )
             errors.extend(ext_errors)
             if not ext_errors:
+                already_added = added_fields.setdefault(extended.name, set())
                 for field in extension.fields:
-                    if field in extended.implemented_fields:
+                    if (
+                        field in extended.implemented_fields
+                        or field in already_added
+                    ):
                         errors.append(
                             f"Can't add Field < {field} > to "
                             f"INTERFACE < {extended.name} > "
                             f"cause field already exists."
                         )
+                    already_added.add(field)
 
                 errors.extend(
                     _validate_extension_directives(
